@@ -28,7 +28,9 @@ func TestVerif_C32(t *testing.T) {
 
 	isAlpha := func(c int) bool { return c >= 'a' && c <= 'z' || c >= 'A' && c <= 'Z' }
 	isDigit := func(c int) bool { return c >= '0' && c <= '9' }
-	unreserved := func(c int) bool { return isAlpha(c) || isDigit(c) || strings.IndexByte("-_.~", byte(c)) >= 0 && c < 128 }
+	unreserved := func(c int) bool {
+		return isAlpha(c) || isDigit(c) || strings.IndexByte("-_.~", byte(c)) >= 0 && c < 128
+	}
 	tchar := func(c int) bool {
 		return c < 128 && (isAlpha(c) || isDigit(c) || strings.IndexByte("!#$%&'*+-.^_`|~", byte(c)) >= 0)
 	}
